@@ -26,7 +26,7 @@ def macro_runs(chk, sc, build, jobs):
     return vlib.parallel(one, jobs, jobs=min(len(jobs), vlib.NCPU))
 
 
-def validate_macro(chk, sc, results, bound=(6, 1)):
+def validate_macro(chk, sc, results, bound=(16, 1)):
     allp = sc.file("macro_all.ndjson")
     index = []
     with open(allp, "w") as out:
